@@ -302,7 +302,7 @@ pub async fn execute(seed: u64, plan: Value) -> Run {
                 }
                 run.stat("wait_polls", 1);
             }
-            "clients" => {
+            "clients" | "clients_with" => {
                 let plans = conn_plans(&plan, si, &s["conns"]);
                 // register response specs
                 if let Some(a) = s["conns"].as_array() {
@@ -327,6 +327,31 @@ pub async fn execute(seed: u64, plan: Value) -> Run {
                 let max_s = s["max_s"].as_u64().unwrap_or(1200);
                 let deadline = tokio::time::Instant::now() + Duration::from_secs(max_s);
                 let phase_idx = run.phases.len();
+                // actions that happen while the clients are running (C10: rotation under load)
+                let mut during: Vec<Value> = s["during"].as_array().cloned().unwrap_or_default();
+                during.sort_by_key(|d| d["after_ms"].as_u64().unwrap_or(0));
+                let mut elapsed = 0u64;
+                for d in during {
+                    let at = d["after_ms"].as_u64().unwrap_or(0);
+                    if at > elapsed {
+                        tokio::time::sleep(Duration::from_millis(at - elapsed)).await;
+                        elapsed = at;
+                    }
+                    let a = &d["do"];
+                    match a["t"].as_str().unwrap_or("") {
+                        "doc" => {
+                            let mut g = st.lock().unwrap();
+                            prev_docs.push(cur_doc.clone());
+                            cur_doc = a["doc"].clone();
+                            g.set_doc(cur_doc.clone());
+                            vrt::log("script", format!("doc v{} set (under load)", g.doc_version));
+                        }
+                        other => {
+                            prev_docs.push(cur_doc.clone());
+                            let _ = crate::scenarios::custom_step(&mut run, si, other, a).await;
+                        }
+                    }
+                }
                 for (pc, h) in handles {
                     match tokio::time::timeout_at(deadline, h).await {
                         Ok(Ok(r)) => run.conns.push((phase_idx, pc, r)),
@@ -368,6 +393,21 @@ pub async fn execute(seed: u64, plan: Value) -> Run {
                 };
                 if let Some(kind) = kind {
                     vrt::net::arm_fault(vrt::net::ArmedFault { dst: s["dst"].as_str().map(|d| clients::dst_addr(d)), agent_initiated: s["agent"].as_bool(), kind });
+                }
+            }
+            "drain_faults" => {
+                let notify = st.lock().unwrap().notify.clone();
+                let deadline = tokio::time::Instant::now() + Duration::from_secs(s["max_s"].as_u64().unwrap_or(300));
+                loop {
+                    let pending: usize = st.lock().unwrap().faults.values().map(|q| q.len()).sum();
+                    if pending == 0 {
+                        break;
+                    }
+                    if tokio::time::timeout_at(deadline, notify.notified()).await.is_err() {
+                        // faults the agent never ran into (e.g. an acquire fault when no key was needed): drop them
+                        st.lock().unwrap().faults.clear();
+                        break;
+                    }
                 }
             }
             "start_agent" => {
